@@ -7,7 +7,7 @@
    outside (lists that are not 188 long, non-byte elements, states outside 0..2) are listed in notes/model-duplicates.md.
    Statements only; proofs in Proofs/ModelTie.v. *)
 From Gots Require Import Base.Prelude Model.Pts Model.Packet Model.AF Model.AFfn Model.Psi Model.Pat Model.Pmt Model.Pes
-  Model.Accumulator Model.Create Model.Scte Proofs.ModelTie.
+  Model.Accumulator Model.Create Model.Scte Model.ScteEnc Proofs.ModelTie.
 Local Open Scope N_scope.
 
 (* ================================================================== packet/packet.go
@@ -178,6 +178,18 @@ Theorem ModelTie_psi_table_header : forall d, is_bytes d ->
   Scte.table_header_from_bytes d = rmap th_tuple (Psi.table_header_from_bytes d).
 Proof. exact psi_table_header_scte. Qed.
 Print Assumptions ModelTie_psi_table_header.
+
+(* psi.TableHeader.Data(): Model/Psi.v versus the three header bytes UpdateData (Model/ScteEnc.v, C09) writes inline *)
+Theorem ModelTie_psi_table_header_data :
+  (forall tid ssi pi sl,
+     Psi.table_header_data {| Psi.th_tid := tid; Psi.th_ssi := ssi; Psi.th_pi := pi; Psi.th_sl := sl |} =
+     [tid; 128 * b2n ssi + 64 * b2n pi + 48 + (sl / 256) mod 4; sl mod 256]) /\
+  (forall st, exists rest,
+     fst (ScteEnc.update_data st) =
+     Psi.table_header_data {| Psi.th_tid := Scte.s_tid st; Psi.th_ssi := Scte.s_ssi st; Psi.th_pi := Scte.s_pi st;
+                              Psi.th_sl := Scte.s_slen (snd (ScteEnc.update_data st)) |} ++ rest).
+Proof. exact (conj psi_table_header_data_bytes update_data_header). Qed.
+Print Assumptions ModelTie_psi_table_header_data.
 
 (* ================================================================== pts.go / pes/pesheader.go *)
 Theorem ModelTie_extract_time : forall b, Pes.extract_time b = Pts.extract_time b.
